@@ -161,3 +161,21 @@ pub fn comment_sanitised_filter_ok(text: &str) -> String {
     let one: String = text.chars().filter(|c| *c != '\n' && *c != '\r').collect();
     format!("# {}", one)
 }
+
+// ---------------------------------------------------------------- C17 controls
+pub fn round_bare(x: Decimal) -> Decimal {
+    x.round_dp(2)
+}
+
+pub fn round_away_ok(x: Decimal) -> Decimal {
+    x.round_dp_with_strategy(2, rust_decimal::RoundingStrategy::MidpointAwayFromZero)
+}
+
+pub fn round_half_even_strategy(x: Decimal) -> Decimal {
+    x.round_dp_with_strategy(2, rust_decimal::RoundingStrategy::MidpointNearestEven)
+}
+
+pub fn float_conv(x: Decimal) -> Option<f64> {
+    use rust_decimal::prelude::ToPrimitive;
+    x.to_f64()
+}
